@@ -677,7 +677,7 @@ package raft
 // (Lfirst, Llast, Lterm, Ltyp, Ldata) used by the interface contract:
 //   Lfirst = entries[0].Index, Llast = entries[len-1].Index, Lterm[Lfirst+k] = entries[k].Term ...
 
-//@ spec logRI(l) = l.file != nil && len(l.entries) >= 1 && forall k int :: 0 <= k && k < len(l.entries) ==> l.entries[k] != nil && l.entries[k].Index == l.entries[0].Index + k
+//@ spec logRI(l) = l.file != nil && len(l.entries) >= 1 && l.entries[0].Index + len(l.entries) - 1 <= 18446744073709551615 && forall k int :: 0 <= k && k < len(l.entries) ==> l.entries[k] != nil && l.entries[k].Index == l.entries[0].Index + k
 //@ spec absFirst(l) = l.entries[0].Index
 //@ spec absLast(l) = l.entries[0].Index + len(l.entries) - 1
 //@ spec absContains(l, i) = absFirst(l) < i && i <= absLast(l)
